@@ -12,6 +12,11 @@
 //!     6 sig c          flag::register_conditional_default(sig, c)
 //!     7 k              low_level::unregister(id of the k-th registration op)
 //!     8 sig k          low_level::register(sig, observer k)   -- reports all flags when run
+//!   environment ops, only at the front, neither counted nor reported (the property does not
+//!   depend on them):
+//!     -1 sig d         disposition of sig before anything is registered: d = 1 SIG_IGN, 2 a
+//!                      foreign no-op handler, 3 a foreign no-op handler with SA_RESETHAND|SA_NODEFER
+//!     -2 n             n additional idle threads
 //! stdout, one line per case:  <case-id> <record ints ...>
 //!     1 i res f0..      op i completed (written by the child after the op returned)
 //!     2 k 0 f0..        observer k ran (written from inside the signal handler)
@@ -65,6 +70,8 @@ extern "C" fn atexit_hook() {
     }
 }
 
+extern "C" fn foreign_handler(_sig: libc::c_int) {}
+
 fn child(nb: usize, nu: usize, ops: &[i64]) -> i32 {
     unsafe {
         reset_all_dispositions();
@@ -78,6 +85,26 @@ fn child(nb: usize, nu: usize, ops: &[i64]) -> i32 {
     let mut i = 0usize;
     let mut opno: i64 = 0;
     let arg = |j: usize| -> i64 { ops[j] };
+    while i < ops.len() && ops[i] < 0 {
+        if ops[i] == -1 {
+            let (sig, d) = (arg(i + 1) as i32, arg(i + 2));
+            unsafe {
+                let mut sa: libc::sigaction = std::mem::zeroed();
+                sa.sa_sigaction = if d == 1 { libc::SIG_IGN } else { foreign_handler as *const () as usize };
+                sa.sa_flags = if d == 3 { libc::SA_RESETHAND | libc::SA_NODEFER } else { 0 };
+                libc::sigemptyset(&mut sa.sa_mask);
+                libc::sigaction(sig, &sa, std::ptr::null_mut());
+            }
+            i += 3;
+        } else {
+            for _ in 0..arg(i + 1) {
+                std::thread::spawn(|| loop {
+                    std::thread::sleep(Duration::from_secs(3600));
+                });
+            }
+            i += 2;
+        }
+    }
     while i < ops.len() {
         let mut res = 0i64;
         match ops[i] {
@@ -148,6 +175,9 @@ fn child(nb: usize, nu: usize, ops: &[i64]) -> i32 {
 fn count_ops(ops: &[i64]) -> Option<usize> {
     let mut i = 0;
     let mut n = 0;
+    while i < ops.len() && ops[i] < 0 {
+        i += if ops[i] == -1 { 3 } else { 2 };
+    }
     while i < ops.len() {
         i += match ops[i] {
             1 => 3,
